@@ -702,6 +702,16 @@ func (in *inst) afterPublish() {
 		}
 		in.lastPub[n] = cur
 		in.inCfgPrev[n] = inCfg
+		if inCfg && in.skipOracles && err == nil {
+			// replayed prefix: nothing is judged, but the long-lived client is used as an application uses it
+			// (a lookup between two updates is what fills whatever the client caches)
+			for _, bk := range boundaryKeys {
+				_, _ = in.cA[n].Get(bk.Key)
+			}
+			for _, k := range fixedKeys {
+				_, _ = in.cA[n].Get(k)
+			}
+		}
 		if !inCfg || in.skipOracles {
 			continue
 		}
